@@ -9,7 +9,7 @@ use crate::refmodel::value::RV;
 use crate::rng::Rng;
 use evalexpr::{ContextWithMutableVariables, EmptyContextWithBuiltinFunctions, Node};
 
-pub const NON_BUILTINS: [&str; 3] = ["foo", "math::nope", "Typeof"];
+pub const NON_BUILTINS: [&str; 6] = ["foo", "math::nope", "Typeof", "random", "str::regex_matches", "str::regex_replace"];
 
 pub fn names() -> Vec<&'static str> {
     let mut v: Vec<&'static str> = BUILTINS.to_vec();
